@@ -199,6 +199,9 @@ def fnCall (t : List Str) : String :=
       let chunks := (args.drop 1).map (fun c => if c == ['-'] then [] else hexBytes c)
       let fr := Codec.codecRun max chunks
       if fr.isEmpty then "none" else String.intercalate " " (fr.map frameS)
+    else if name == "banned" then
+      let m : ChannelModes := { ban := unescList (args.getD 0 []), exception := unescList (args.getD 1 []) }
+      boolS (m.banned (a 2))
     else if name == "vhash" then boolS (Config.validPasswordHash (a 0))
     else if name == "configm" then
       -- configm name network listen port pw dns tls opers users chans | cli: listen port name network log dns cert key
